@@ -979,6 +979,114 @@ func (fi *FuncInfo) edgeConds(p, s *ssa.BasicBlock) []Cond {
 	return out
 }
 
+// condAlternatives: for a condition on a boolean φ (the materialised value of a short-circuit
+// expression) the alternative condition lists it stands for; nil for any other condition.
+// φ = [c₁ from P₁, v₂ from P₂, …] is `want` iff control came along some edge i whose value is `want`:
+// a constant edge contributes the branch conditions of that edge, a computed one additionally v_i = want.
+func (fi *FuncInfo) condAlternatives(c Cond, depth int) [][]Cond {
+	c = unNot(c)
+	ph, ok := c.V.(*ssa.Phi)
+	if !ok || depth > 4 {
+		return nil
+	}
+	if b, isB := ph.Type().Underlying().(*types.Basic); !isB || b.Kind() != types.Bool {
+		return nil
+	}
+	// only φs of pure control merges (not loop headers)
+	for _, p := range ph.Block().Preds {
+		if ph.Block().Dominates(p) {
+			return nil
+		}
+	}
+	var alts [][]Cond
+	for i, e := range ph.Edges {
+		pred := ph.Block().Preds[i]
+		var ec []Cond
+		if iff, ok := pred.Instrs[len(pred.Instrs)-1].(*ssa.If); ok && pred.Succs[0] != pred.Succs[1] {
+			if pred.Succs[0] == ph.Block() {
+				ec = append(ec, Cond{iff.Cond, true})
+			} else {
+				ec = append(ec, Cond{iff.Cond, false})
+			}
+		}
+		// the conditions under which pred itself is reached, below the φ's own dominator
+		for _, cd := range fi.condsAt(pred) {
+			dup := false
+			for _, x := range fi.condsAt(ph.Block()) {
+				if x == cd {
+					dup = true
+				}
+			}
+			if !dup {
+				ec = append(ec, cd)
+			}
+		}
+		if k, isC := e.(*ssa.Const); isC {
+			if k.Value == nil {
+				return nil
+			}
+			if constant.BoolVal(k.Value) == c.True {
+				alts = append(alts, ec)
+			}
+			continue
+		}
+		alts = append(alts, append(ec, Cond{e, c.True}))
+	}
+	return alts
+}
+
+// expandConds: nil when no condition is a boolean φ; otherwise the list of alternative condition
+// lists (cartesian product over the disjunctive ones, capped), free of boolean φs.
+func (fi *FuncInfo) expandConds(conds []Cond) [][]Cond {
+	has := false
+	for _, c := range conds {
+		if _, ok := unNot(c).V.(*ssa.Phi); ok {
+			if fi.condAlternatives(c, 0) != nil {
+				has = true
+			}
+		}
+	}
+	if !has {
+		return nil
+	}
+	out := [][]Cond{{}}
+	for _, c := range conds {
+		alts := fi.condAlternatives(c, 0)
+		if alts == nil {
+			for i := range out {
+				out[i] = append(out[i], c)
+			}
+			continue
+		}
+		if len(alts) == 0 {
+			// the condition cannot hold on any edge: the point is unreachable; keep a contradiction
+			return [][]Cond{}
+		}
+		var next [][]Cond
+		for _, o := range out {
+			for _, a := range alts {
+				n := append(append([]Cond{}, o...), a...)
+				next = append(next, n)
+			}
+		}
+		if len(next) > 16 {
+			// too many alternatives: drop this condition (sound: fewer hypotheses)
+			continue
+		}
+		out = next
+	}
+	// nested boolean φs introduced by the alternatives
+	var final [][]Cond
+	for _, o := range out {
+		if sub := fi.expandConds(o); sub != nil {
+			final = append(final, sub...)
+		} else {
+			final = append(final, o)
+		}
+	}
+	return final
+}
+
 func unNot(c Cond) Cond {
 	for {
 		u, ok := c.V.(*ssa.UnOp)
@@ -999,6 +1107,25 @@ func (fi *FuncInfo) factsOf(conds []Cond) []Fact {
 			continue
 		}
 		if !isIntType(bo.X.Type()) || !isIntType(bo.Y.Type()) {
+			// v == nil / v != nil on pointers and interfaces: the pseudo-atom nil?(v) ∈ {0, 1}
+			if bo.Op == token.EQL || bo.Op == token.NEQ {
+				lx, okx := fi.nilLin(bo.X)
+				ly, oky := fi.nilLin(bo.Y)
+				_, xc := bo.X.(*ssa.Const)
+				_, yc := bo.Y.(*ssa.Const)
+				if okx && oky && (xc || yc) {
+					// comparison with the nil constant: nil?(v) = 1 (equal) or 0 (unequal)
+					eq := (bo.Op == token.EQL) == c.True
+					d := lx.sub(ly) // nil?(v) − 1 or 1 − nil?(v)
+					if eq {
+						out = append(out, Fact{d, EQ})
+					} else if xc {
+						out = append(out, Fact{ly, EQ}) // nil?(Y) = 0
+					} else {
+						out = append(out, Fact{lx, EQ})
+					}
+				}
+			}
 			continue
 		}
 		d := fi.lin(bo.X).sub(fi.lin(bo.Y)) // X - Y
@@ -1038,6 +1165,31 @@ func (fi *FuncInfo) factsOf(conds []Cond) []Fact {
 }
 
 func (fi *FuncInfo) factsAt(b *ssa.BasicBlock) []Fact { return fi.factsOf(fi.condsAt(b)) }
+
+// nilLin: the linear form of nil?(v) for a pointer or interface value: 1 for the nil constant, 0 for
+// the address of something and for the value of a package-level error variable (these are initialised
+// once and never stored again: R-NOGLOBAL), otherwise the pseudo-atom "nil?<name>".
+func (fi *FuncInfo) nilLin(v ssa.Value) (Lin, bool) {
+	switch v.Type().Underlying().(type) {
+	case *types.Pointer, *types.Interface, *types.Slice, *types.Map, *types.Signature, *types.Chan:
+	default:
+		return Lin{}, false
+	}
+	switch x := v.(type) {
+	case *ssa.Const:
+		if x.Value == nil {
+			return linConst(1), true
+		}
+		return Lin{}, false
+	case *ssa.Alloc, *ssa.FieldAddr, *ssa.IndexAddr, *ssa.MakeInterface, *ssa.MakeSlice, *ssa.MakeMap, *ssa.MakeClosure, *ssa.Global, *ssa.Function:
+		return linConst(0), true
+	case *ssa.UnOp:
+		if g, ok := x.X.(*ssa.Global); ok && x.Op == token.MUL && isErrorType(x.Type()) && g.Pkg != nil && (g.Pkg == fi.ctx.lz || g.Pkg == fi.ctx.suffix) {
+			return linConst(0), true
+		}
+	}
+	return linAtom("nil?" + v.Name()), true
+}
 
 // ---------------------------------------------------------------- non-negativity
 
@@ -1553,6 +1705,16 @@ func (fi *FuncInfo) proveLE0(goal Lin, conds []Cond, extra []Fact, hyp map[strin
 	if goal.isConst() && goal.c <= 0 {
 		return true
 	}
+	// conditions on materialised booleans (φ of `a && b` / `a || b` in value position, e.g. a switch
+	// case): replaced by the branch conditions they stand for; a disjunction is proved per alternative
+	if alts := fi.expandConds(conds); alts != nil {
+		for _, alt := range alts {
+			if !fi.proveLE0(goal, alt, extra, hyp, depth) {
+				return false
+			}
+		}
+		return true
+	}
 	// every outermost query gets a fixed budget of prover steps
 	if fi.nested == 0 {
 		fi.budget = proverBudget
@@ -1848,6 +2010,26 @@ func (fi *FuncInfo) proveAt(goal Lin, b *ssa.BasicBlock, extra []Fact) bool {
 func (fi *FuncInfo) proveAny(goals []Lin, b *ssa.BasicBlock, extra []Fact) bool {
 	for _, g := range goals {
 		if fi.proveLE(g, b, extra) {
+			return true
+		}
+	}
+	// a dominating disjunction (¬(a && b) in value position): some goal per alternative
+	if alts := fi.expandConds(fi.condsAt(b)); len(alts) > 1 {
+		all := true
+		for _, alt := range alts {
+			one := false
+			for _, g := range goals {
+				if fi.proveLE0(g, alt, extra, map[string]bool{}, 1) {
+					one = true
+					break
+				}
+			}
+			if !one && !fi.proveLE0(linConst(1), alt, extra, map[string]bool{}, 2) {
+				all = false
+				break
+			}
+		}
+		if all {
 			return true
 		}
 	}
